@@ -130,6 +130,9 @@ func oracleC12() *Result {
 	for _, b := range nestedStmtSources(rng, nn) {
 		add(b, "nested-stmts")
 	}
+	for _, b := range longChainSources() {
+		add(b, "long-chain")
+	}
 	for _, s := range loadCorpus() {
 		add(s.Src, "corpus")
 		if len(s.Src) < 3000 {
